@@ -74,7 +74,7 @@ func c13Exec(s map[string]string) map[string]any {
 		low = 2 + arr
 	}
 	start := map[string]int64{"low": low, "s2048": 2048, "s2p23m1": 1<<23 - 1, "s2p23": 1 << 23, "s2p23p1": 1<<23 + 1, "s2p32m1": 1<<32 - 1}[s["start"]]
-	size := map[string]int64{"z1": 1, "z3": 3, "z2048": 64}[s["size"]] // class "large": 64 sectors = many physical-sector chunks
+	size := map[string]int64{"z1": 1, "z3": 3, "z9": 9, "z2048": 64}[s["size"]] // class "large": 64 sectors = many physical-sector chunks
 	size2 := size
 	if (start+size)%2 == 0 {
 		size2 = size + 1 // target larger than source in half of the cases
